@@ -51,9 +51,79 @@ class Replayer:
         self.workdir = workdir
         self.dfs = {}
         for i, d in enumerate(("D1", "D2")):
-            _, _, df = zoo.make(kind, n_ind=5, seed=i)
+            _, _, df = zoo.make(kind, n_ind=5, seed=i, missing=0.0 if d == "D1" else 0.25)
             self.dfs[d] = df
+        # the caller's objects, kept and re-used for the whole replay: D1 is passed as a table, D2 as a Dataset object
+        # (with missing entries inside visits); one settings object per (call, data set, seed), D2 with annealing switched on
+        from leaspy.io.data import Data
+        from leaspy.io.data.dataset import Dataset
+        joint = bool(zoo.CONFIGS[kind][1].get("events"))
+        self.inputs = {"D1": self.dfs["D1"],
+                       "D2": Dataset(Data.from_dataframe(self.dfs["D2"], data_type="joint") if joint else Data.from_dataframe(self.dfs["D2"]))}
+        self.settings = {}
         self.features = [c for c in self.dfs["D1"].columns if c.startswith("Y")]
+
+    def settings_for(self, op, d, seed):
+        key = (op, d, seed)
+        if key not in self.settings:
+            algo = {"Fit": "mcmc_saem", "PersoScipy": "scipy_minimize", "PersoMean": "mean_posterior", "PersoMode": "mode_posterior"}[op]
+            kw = dict(seed=SEED_BASE + seed, progress_bar=False)
+            if op == "Fit":
+                kw["n_iter"] = 4
+            elif op != "PersoScipy":
+                kw["n_iter"] = 5
+            if d == "D2" and op != "PersoScipy":
+                kw["annealing"] = dict(do_annealing=True, initial_temperature=5.0, n_plateau=2, n_iter=None, n_iter_frac=0.5)
+            self.settings[key] = AlgorithmSettings(algo, **kw)
+        return self.settings[key]
+
+    @staticmethod
+    def snap(obj):
+        if isinstance(obj, pd.DataFrame):
+            return obj.copy(deep=True)
+        return copy.deepcopy(obj)
+
+    @classmethod
+    def same(cls, a, b):
+        if isinstance(a, pd.DataFrame):
+            return a.equals(b) and list(a.columns) == list(b.columns) and list(a.index) == list(b.index)
+        if torch.is_tensor(a):
+            return torch.is_tensor(b) and a.dtype == b.dtype and a.shape == b.shape and torch.equal(a.isnan(), b.isnan()) \
+                and torch.equal(torch.nan_to_num(a), torch.nan_to_num(b))
+        if isinstance(a, np.ndarray):
+            return isinstance(b, np.ndarray) and a.shape == b.shape and a.dtype == b.dtype and bool(np.array_equal(a, b, equal_nan=a.dtype.kind == "f"))
+        if isinstance(a, dict):
+            return isinstance(b, dict) and list(a) == list(b) and all(cls.same(a[k], b[k]) for k in a)
+        if isinstance(a, (list, tuple)):
+            return type(a) is type(b) and len(a) == len(b) and all(cls.same(x, y) for x, y in zip(a, b))
+        if hasattr(a, "__dict__") and not isinstance(a, type):
+            return type(a) is type(b) and cls.same(vars(a), vars(b))
+        try:
+            return bool(a == b) or (a != a and b != b)
+        except Exception:  # noqa: BLE001
+            return True
+
+    @staticmethod
+    def leftover(model):
+        """Names of attributes of the model holding a State (other than model.state) with call data / individual latent values."""
+        from leaspy.variables.state import State
+        out = []
+
+        def visit(name, v, depth):
+            if isinstance(v, State):
+                if v is not getattr(model, "_state", None):
+                    kept = [n for n in v.dag if isinstance(v.dag[n], (DataVariable, IndividualLatentVariable)) and v._values.get(n) is not None]
+                    if kept:
+                        out.append(f"{name} keeps {kept[:4]}")
+            elif depth < 2 and isinstance(v, (list, tuple)):
+                for i, x in enumerate(v):
+                    visit(f"{name}[{i}]", x, depth + 1)
+            elif depth < 2 and isinstance(v, dict):
+                for k, x in v.items():
+                    visit(f"{name}[{k!r}]", x, depth + 1)
+        for k, v in vars(model).items():
+            visit(k, v, 0)
+        return out
 
     def fixed_ips(self, model):
         ips = IndividualParameters()
@@ -103,12 +173,12 @@ class Replayer:
                     warnings.simplefilter("ignore")
                     op = call[0]
                     if op == "Fit":
-                        df = self.dfs[call[1]]
-                        snap = df.copy(deep=True)
-                        settings = AlgorithmSettings("mcmc_saem", n_iter=4, seed=SEED_BASE + call[2], progress_bar=False)
-                        psnap = copy.deepcopy(settings.parameters)
+                        df = self.inputs[call[1]]
+                        snap = self.snap(df)
+                        settings = self.settings_for(op, call[1], call[2])
+                        psnap = copy.deepcopy(vars(settings))
                         model.fit(df, algorithm_settings=settings)
-                        inputs_ok = df.equals(snap) and list(df.columns) == list(snap.columns) and settings.parameters == psnap
+                        inputs_ok = self.same(snap, df) and self.same(psnap, vars(settings))
                     elif op == "Estimate":
                         ips = self.fixed_ips(model)
                         tp = {"a": [70.0, 75.5, 64.0], "b": [72.25]}
@@ -117,18 +187,14 @@ class Replayer:
                         result = _h(*[est[i] for i in sorted(est)])
                         inputs_ok = tp == tsnap
                     elif op in ("PersoScipy", "PersoMean", "PersoMode"):
-                        algo = {"PersoScipy": "scipy_minimize", "PersoMean": "mean_posterior", "PersoMode": "mode_posterior"}[op]
-                        df = self.dfs[call[1]]
-                        snap = df.copy(deep=True)
-                        kw = dict(seed=SEED_BASE + call[2], progress_bar=False)
-                        if op != "PersoScipy":
-                            kw["n_iter"] = 5
-                        settings = AlgorithmSettings(algo, **kw)
-                        psnap = copy.deepcopy(settings.parameters)
+                        df = self.inputs[call[1]]
+                        snap = self.snap(df)
+                        settings = self.settings_for(op, call[1], call[2])
+                        psnap = copy.deepcopy(vars(settings))
                         ips = model.personalize(df, algorithm_settings=settings)
                         r1 = ips.to_dataframe()
                         result = _h(r1.values, np.array(list(r1.index), dtype="U"))
-                        inputs_ok = df.equals(snap) and settings.parameters == psnap
+                        inputs_ok = self.same(snap, df) and self.same(psnap, vars(settings))
                     elif op == "Simulate":
                         vp = {"patient_number": 3, "visit_type": "random", "first_visit_mean": 0.0, "first_visit_std": 0.4,
                               "time_follow_up_mean": 4, "time_follow_up_std": 0.5, "distance_visit_mean": 1.0,
@@ -161,6 +227,10 @@ class Replayer:
                 return k, f"after {call}: population variables at prior modes = {pop_at_mode(model)}, specification says {st['pop']}", history
             if not inputs_ok:
                 return k, f"after {call}: a caller-owned input object was modified", history
+            if op in ("Estimate", "PersoScipy", "PersoMean", "PersoMode", "Simulate"):
+                left = self.leftover(model)
+                if left:
+                    return k, f"after {call}: data or latent values of the call left behind in the model: {left}", history
             if st["params"] == prev["params"] and pre_params is not None and op != "Load":
                 if params_hash(model) != pre_params:
                     return k, f"{call} changed the model parameters", history
@@ -173,15 +243,31 @@ class Replayer:
         return None
 
 
+N_SCRIPTS = 6
+
+
 def simulate_behaviours(outdir, num, depth, seed, seeds="{0}"):
     os.makedirs(outdir, exist_ok=True)
+    out = []
+    # directed histories first (Script1..N of MC_ModelLifecycle.tla): one behaviour each, generated by TLC
+    for i in range(1, N_SCRIPTS + 1):
+        cfg = os.path.join(outdir, f"script{i}.cfg")
+        with open(cfg, "w") as f:
+            f.write('SPECIFICATION Spec\nCONSTANTS\n  Datasets = {"D1", "D2"}\n  Seeds = {0, 1}\n  MaxCalls = 100\n  FitLeavesCohort = TRUE\n'
+                    f'  Script <- Script{i}\n')
+        res = tlc.run("MC_ModelLifecycle", cfg, workers=1, simulate=f"file={outdir}/sc{i}_,num=1", depth=20, seed=1, deadlock=False, timeout=600)
+        tlc.require_ok(res, f"simulate ModelLifecycle Script{i}")
+        for f in sorted(glob.glob(os.path.join(outdir, f"sc{i}_*"))):
+            with open(f) as fh:
+                out.append(tlaval.parse_sim_trace(fh.read()))
+    if len(out) != N_SCRIPTS or any(len(b) < 5 for b in out):
+        raise tlc.MachineryError(f"scripted behaviours not generated as expected: {[len(b) for b in out]}")
     cfg = os.path.join(outdir, "sim.cfg")
     with open(cfg, "w") as f:
-        f.write('SPECIFICATION Spec\nCONSTANTS\n  Datasets = {"D1", "D2"}\n  Seeds = ' + seeds + '\n  MaxCalls = 100\n  FitLeavesCohort = TRUE\n')
-    res = tlc.run("ModelLifecycle", cfg, workers=1, simulate=f"file={outdir}/tr,num={num}", depth=depth, seed=seed,
+        f.write('SPECIFICATION Spec\nCONSTANTS\n  Datasets = {"D1", "D2"}\n  Seeds = ' + seeds + '\n  MaxCalls = 100\n  FitLeavesCohort = TRUE\n  Script <- Free\n')
+    res = tlc.run("MC_ModelLifecycle", cfg, workers=1, simulate=f"file={outdir}/tr,num={num}", depth=depth, seed=seed,
                   deadlock=False, timeout=600)
     tlc.require_ok(res, "simulate ModelLifecycle")
-    out = []
     for f in sorted(glob.glob(os.path.join(outdir, "tr*"))):
         with open(f) as fh:
             out.append(tlaval.parse_sim_trace(fh.read()))
@@ -237,10 +323,10 @@ def run_replay(ctx, pid, kinds, num, depth, seeds_set="{0}"):
 def run_design(ctx, max_calls=5):
     cfg = os.path.join(ctx.tmp, "life_mc.cfg")
     with open(cfg, "w") as f:
-        f.write('SPECIFICATION Spec\nCONSTANTS\n  Datasets = {"D1", "D2"}\n  Seeds = {0, 1}\n  MaxCalls = %d\n  FitLeavesCohort = TRUE\n'
+        f.write('SPECIFICATION Spec\nCONSTANTS\n  Datasets = {"D1", "D2"}\n  Seeds = {0, 1}\n  MaxCalls = %d\n  FitLeavesCohort = TRUE\n  Script <- Free\n'
                 'INVARIANT ResultDependsOnlyOn\nINVARIANT CallerInputsUntouched\nINVARIANT PopAtMode\nPROPERTY ModelUntouched\n'
                 'PROPERTY NothingLeftBehind\nPROPERTY SeededRepeatable\nCHECK_DEADLOCK FALSE\n' % max_calls)
-    res = tlc.run("ModelLifecycle", cfg, workers=16, timeout=3000)
+    res = tlc.run("MC_ModelLifecycle", cfg, workers=16, timeout=3000)
     tlc.require_ok(res, "ModelLifecycle")
     ctx.add_tlc(f"ModelLifecycle: call histories up to {max_calls} calls, 2 data sets, 2 seeds", res)
     ctx.log(f"TLC ModelLifecycle: {res.distinct} states, violated={res.violated} ({res.wall:.1f}s)")
